@@ -289,6 +289,12 @@ fn state_tokens(p: &AisParser, o: &mut S) {
     }
 }
 
+fn hexstr(b: &[u8]) -> String {
+    let mut o = String::new();
+    for x in b { write!(o, "{:02x}", x).unwrap(); }
+    o
+}
+
 fn unhex(s: &str) -> Vec<u8> {
     if s == "-" { return vec![]; }
     (0..s.len() / 2).map(|i| u8::from_str_radix(&s[2 * i..2 * i + 2], 16).unwrap()).collect()
@@ -352,6 +358,22 @@ fn main() {
                 let code: u8 = f[1].parse().unwrap();
                 let v = ShipType::parse(code);
                 opt('u', &v, &mut o, |x, o| { o.push_str("(s "); tenum(ship_type_index(x), o); sp(o); ti(u8::from(*x) as u64, o); close(o); });
+            }
+            "X" => {
+                // the command-line tool's loop, in process: BufRead::split(b'\n') + parse(line, true)
+                let bytes = unhex(f[1]);
+                let mut parser = AisParser::new();
+                o.push('X');
+                let mut segs: Vec<&[u8]> = bytes.split(|b| *b == b'\n').collect();
+                if segs.last().map(|s| s.is_empty()).unwrap_or(false) { segs.pop(); }
+                for seg in segs {
+                    match catch_unwind(AssertUnwindSafe(|| parser.parse(seg, true))) {
+                        Err(_) => { o.push_str(" p"); break; }
+                        Ok(Err(e)) => { o.push_str(" e:"); o.push_str(&hexstr(format!("{:?}", e).as_bytes())); }
+                        Ok(Ok(AisFragments::Complete(s))) => { o.push_str(" o:"); o.push_str(&hexstr(format!("{:?}", s.message).as_bytes())); }
+                        Ok(Ok(AisFragments::Incomplete(_))) => o.push_str(" n"),
+                    }
+                }
             }
             "" => continue,
             _ => panic!("bad case line"),
